@@ -10,8 +10,9 @@ the representation of the same numbers).
   silently dropped.
 * a *recipe* is a plain function ``recipe(c)`` receiving a context ``c``
   (class ``Ctx``) that hands out the arguments in the requested
-  *representation* and *data condition* (``c.data()``, ``c.error()``,
-  ``c.mask()``, ``c.hold(name, obj)`` for every other caller-held object) and
+  *representation*, *data condition* and *geometry* (``c.data()``,
+  ``c.error()``, ``c.mask()``, ``c.hold(name, obj)`` for every other
+  caller-held object) and
   executes the calls as named *steps* (``c.step(label, thunk)``).  After every
   step (whether it returned or raised) all caller-held objects are compared
   with the snapshot taken before the first step.  For catalog-like classes
@@ -141,6 +142,38 @@ C10_REPS_THOROUGH = C10_REPS_QUICK + ('strided', 'fortran', 'float32', 'bigendia
 C15_REPS = ('f4', 'i4', 'i8', 'be', 'F', 'strided', 'ma_empty', 'ma_nomask', 'nddata', 'quantity')
 C15_MIXED = ('mixed_data', 'mixed_companion')
 
+# --- geometry axis (C10) ----------------------------------------------------
+# Whether an intermediate array of the implementation is a *view* of the
+# caller's buffer or a copy depends on shape relations between the image and
+# the box / cutout / aperture / segment / kernel worked on: a slice that spans
+# every column of a C-contiguous image is itself contiguous, so reshape / ravel
+# of it stay views; a cutout that lies inside the image is a view, one that
+# sticks out is rebuilt as a copy; a 1-row or 1-column image makes axis
+# reductions and ``atleast_2d`` degenerate.  A *frame* is the sub-region of the
+# scene that is handed to the API as "the image"; every frame is cut so that the
+# 9x9 pixel block centred on source 0 (x=15, y=14) -- the box / aperture bounding
+# box / fit box / segment the recipes work on -- has the stated relation to it.
+SRC0 = (15, 14)                                  # x, y of source 0 (integer pixel)
+BLOCK = (slice(10, 19), slice(11, 20))           # the 9x9 block around it
+FRAMES = collections.OrderedDict([
+    ('base', None),                                      # 41x47: block strictly inside the image
+    ('tight', (slice(10, 19), slice(11, 20))),           # 9x9:  block == image
+    ('fullwidth', (slice(0, 41), slice(11, 20))),        # 41x9: block spans every column (a C-contiguous run of rows)
+    ('fullheight', (slice(10, 19), slice(0, 47))),       # 9x47: block spans every row (a Fortran-contiguous run of columns)
+    ('under', (slice(11, 18), slice(12, 19))),           # 7x7:  image smaller than the block on every side (== the 7x7 StarFinder kernel)
+    ('five', (slice(12, 17), slice(13, 18))),            # 5x5:  == the 5x5 kernels of DAOStarFinder / IRAFStarFinder(fwhm=4)
+    ('row', (slice(14, 15), slice(0, 47))),              # 1x47: one-row image through the source
+    ('col', (slice(0, 41), slice(17, 18))),              # 41x1: one-column image through the source
+])
+# Extra "bad" pixels used for every geometry other than 'base' (the base scene is
+# shared with C15 and stays as it was), placed in row 14 and column 17 so that
+# the one-row / one-column frames (and the small frames) contain a pixel of
+# every kind a clean-up branch writes to.  (14, 17) itself is the NaN data pixel.
+EXTRA_NONFINITE_ERR = (((14, 13), np.nan), ((11, 17), np.inf))
+EXTRA_NEGATIVE_PIX = ((14, 18), (16, 17))
+EXTRA_MA_MASK_PIX = ((14, 12),)                          # (13, 17) is already in column 17
+EXTRA_ARG_MASK_PIX = {'masked': ((15, 17),), 'nonfinite': ((14, 14), (12, 17)), 'nonfinite_error': ((14, 14), (12, 17))}
+
 
 def _gauss2d(a, x0, y0, sx, sy, th, xx, yy):
     ct, st = np.cos(th), np.sin(th)
@@ -166,18 +199,19 @@ def truth(seed):
     return src.copy(), noise.copy()
 
 
-def scene(cond, seed, integer=False, maskform='cond'):
+def scene(cond, seed, integer=False, maskform='cond', extra=False):
     """-> dict(data, error, background, mask) of float64 / bool ndarrays.
 
     mask argument by condition (maskform 'cond'): clean/int -> None; negatives
     -> all-False array; nonfinite* -> a few True pixels that do NOT coincide
     with the non-finite pixels (so code that ORs the two really changes
     something); masked -> True pixels inside the sources.  maskform 'none' /
-    'empty' force None / an all-False array for every condition (thorough)."""
+    'empty' force None / an all-False array for every condition (thorough).
+    ``extra``: also place the EXTRA_* pixels (geometries other than 'base')."""
     src, noise = truth(seed)
     if cond == 'negatives':
         data = src + noise                     # background-subtracted: noise has negative excursions
-        for (y, x) in NEGATIVE_PIX:
+        for (y, x) in NEGATIVE_PIX + (EXTRA_NEGATIVE_PIX if extra else ()):
             data[y, x] = -7.5 - 0.25 * x
     else:
         data = src + noise + 20.0              # strictly positive
@@ -187,13 +221,13 @@ def scene(cond, seed, integer=False, maskform='cond'):
     if (cond in ('negatives', 'nonfinite', 'nonfinite_error', 'masked') and maskform != 'none') or maskform == 'empty':
         mask = np.zeros(SHAPE, bool)
         if maskform == 'cond':
-            for (y, x) in ARG_MASK_PIX.get(cond, ()):
+            for (y, x) in ARG_MASK_PIX.get(cond, ()) + (EXTRA_ARG_MASK_PIX.get(cond, ()) if extra else ()):
                 mask[y, x] = True
     if cond in ('nonfinite', 'nonfinite_error'):
         for (y, x), v in NONFINITE_DATA:
             data[y, x] = v
     if cond == 'nonfinite_error':
-        for (y, x), v in NONFINITE_ERR:
+        for (y, x), v in NONFINITE_ERR + (EXTRA_NONFINITE_ERR if extra else ()):
             error[y, x] = v
     if cond == 'int' or integer:
         data = np.round(data)
@@ -421,14 +455,16 @@ class Ctx:
     """Hands out arguments in one representation / data condition, executes
     steps, watches the caller-held objects."""
 
-    def __init__(self, rep, cond, seed, integer_scene=False, scale=1.0, maskform='cond'):
+    def __init__(self, rep, cond, seed, integer_scene=False, scale=1.0, maskform='cond', geom='base'):
         import astropy.units as u
         self.rep = rep
         self.cond = cond
         self.seed = seed
         self.scale = scale
         self.maskform = maskform
-        self.sc = scene(cond, seed, integer=integer_scene, maskform=maskform)
+        self.geom = geom
+        self.region = FRAMES.get(geom)      # recipes with their own geometry names call set_frame()
+        self.sc = scene(cond, seed, integer=integer_scene, maskform=maskform, extra=(geom != 'base'))
         if scale != 1.0:
             for k in ('data', 'error', 'background'):
                 self.sc[k] = self.sc[k] * scale
@@ -501,7 +537,54 @@ class Ctx:
         return a.copy()
 
     def _cut(self, a, region):
+        if region is None:
+            region = self.region             # the frame of the geometry (None: the whole scene)
         return a if region is None else a[region]
+
+    # ---- geometry helpers ---------------------------------------------------
+    def set_frame(self, region):
+        """The sub-region of the scene that is "the image" from now on."""
+        self.region = region
+
+    @property
+    def origin(self):
+        """(x0, y0) of the frame in scene pixels."""
+        if self.region is None:
+            return (0, 0)
+        return (self.region[1].start or 0, self.region[0].start or 0)
+
+    @property
+    def shape(self):
+        """Shape of the framed image."""
+        return np.empty(SHAPE, bool)[self.region].shape if self.region is not None else SHAPE
+
+    def fx(self, x):
+        """Scene x coordinate(s) -> frame coordinates."""
+        return x - self.origin[0]
+
+    def fy(self, y):
+        return y - self.origin[1]
+
+    def sources(self):
+        """(x, y) arrays of the catalogued sources in frame coordinates: all
+        three for the whole scene; for a frame only source 0, moved onto the
+        nearest pixel of the image where the frame does not contain its centre
+        (the one-column frame runs through its wing)."""
+        if self.region is None:
+            return XPOS.copy(), YPOS.copy()
+        x, y = self.src0()
+        return np.array([x]), np.array([y])
+
+    def src0(self):
+        """Position of source 0 in frame coordinates (floats), clipped to the image."""
+        ny, nx = self.shape
+        return (float(min(max(self.fx(SRC0[0]), 0), nx - 1)), float(min(max(self.fy(SRC0[1]), 0), ny - 1)))
+
+    def block_bbox(self):
+        """(ixmin, ixmax, iymin, iymax) of the 9x9 block around source 0 in
+        frame coordinates (not clipped: it sticks out of the 'under' frame)."""
+        x0, y0 = self.origin
+        return (BLOCK[1].start - x0, BLOCK[1].stop - x0, BLOCK[0].start - y0, BLOCK[0].stop - y0)
 
     def array(self, name, a, kind='data'):
         """Wrap a float64 / bool ndarray ``a`` in the representation.
@@ -547,7 +630,7 @@ class Ctx:
         rep = self.rep
         if rep == 'ma_masked':
             m = np.zeros(self.sc['data'].shape, bool)
-            for (y, x) in MA_MASK_PIX:
+            for (y, x) in MA_MASK_PIX + (EXTRA_MA_MASK_PIX if self.geom != 'base' else ()):
                 m[y, x] = True
             return self.hold(name, np.ma.MaskedArray(a.copy(), mask=self._cut(m, region).copy()))
         if rep == 'nddata':
@@ -673,31 +756,36 @@ def member_names(cls):
 # --------------------------------------------------------------------------
 # recipes
 # --------------------------------------------------------------------------
-Recipe = collections.namedtuple('Recipe', 'name fn covers nddata units numeric slow axes')
+Recipe = collections.namedtuple('Recipe', 'name fn covers nddata units numeric slow axes geoms')
 RECIPES = collections.OrderedDict()
 
 
-def recipe(name, covers, nddata=False, units=False, numeric=True, slow=False, axes=('rep', 'cond')):
+def recipe(name, covers, nddata=False, units=False, numeric=True, slow=False, axes=('rep', 'cond'), geoms=('base',)):
     """Register a recipe.  ``covers``: public callables it exercises;
     ``nddata``: the data argument may be an NDData; ``units``: the API
     documents Quantity inputs (C15 demands they work and that mixing raises);
     ``numeric``: the recipe takes image data and takes part in C15;
     ``slow``: run in the thorough tier only; ``axes``: which of the product
     axes the recipe's arguments depend on (a recipe that takes no image does
-    not depend on the data condition, and is run once along that axis)."""
+    not depend on the data condition, and is run once along that axis);
+    ``geoms``: the geometry alphabet of the recipe (C10; first = 'base', the
+    only geometry C15 uses): names of ``FRAMES`` or recipe-specific names the
+    recipe function interprets itself (``c.geom``)."""
     def deco(fn):
-        RECIPES[name] = Recipe(name, fn, tuple('photutils.' + c for c in covers), nddata, units, numeric, slow, tuple(axes))
+        assert geoms[0] == 'base'
+        RECIPES[name] = Recipe(name, fn, tuple('photutils.' + c for c in covers), nddata, units, numeric, slow, tuple(axes),
+                               tuple(geoms))
         return fn
     return deco
 
 
-def run_recipe(name, rep, cond, seed, integer_scene=False, scale=1.0, maskform='cond'):
+def run_recipe(name, rep, cond, seed, integer_scene=False, scale=1.0, maskform='cond', geom='base'):
     """Execute one recipe; returns the context (steps, changes, outputs) or
     None when the combination is not applicable."""
     r = RECIPES[name]
-    if rep == 'nddata' and not r.nddata:
+    if (rep == 'nddata' and not r.nddata) or geom not in r.geoms:
         return None
-    c = Ctx(rep, cond, seed, integer_scene=integer_scene, scale=scale, maskform=maskform)
+    c = Ctx(rep, cond, seed, integer_scene=integer_scene, scale=scale, maskform=maskform, geom=geom)
     try:
         with warnings.catch_warnings():
             warnings.simplefilter('ignore')
